@@ -779,6 +779,18 @@ def np_clip(I, a, k):
     return I.call(m, list(a[1:]), k)
 
 
+def _np_filled(value):
+    def f(I, a, k):
+        shape = a[0]
+        dims = list(shape) if isinstance(shape, tuple) else [shape]
+        if not all(isinstance(d, int) and not isinstance(d, bool) and d >= 0 for d in dims) or not 1 <= len(dims) <= 2:
+            raise Unsupported('numpy.zeros/ones with a symbolic or >2-d shape')
+        if len(dims) == 1:
+            return I.st.alloc('clist', [value] * dims[0], nd=True)
+        return I.st.alloc('clist', [I.st.alloc('clist', [value] * dims[1], nd=True) for _ in range(dims[0])], nd=True)
+    return f
+
+
 def np_add_reduce(I, a, k):
     x = a[0]
     if Mo.is_list(x) and x.kind == 'clist':
@@ -948,6 +960,7 @@ def lib_lookup(I, dotted):
         'numpy.ravel': Builtin('numpy.ravel', np_ravel),
         'numpy.flatten': Builtin('numpy.flatten', np_flatten),
         'numpy.squeeze': Builtin('numpy.squeeze', np_squeeze),
+        'numpy.zeros': Builtin('numpy.zeros', _np_filled(0.0)), 'numpy.ones': Builtin('numpy.ones', _np_filled(1.0)),
         'numpy.clip': Builtin('numpy.clip', np_clip),
         'numpy.equal': Builtin('numpy.equal', np_equal),
         'numpy.eye': Builtin('numpy.eye', np_eye),
